@@ -270,5 +270,8 @@ func stepLine(s stepObs) string {
 }
 
 func lifeLine(l *Life) string {
+	if l.Fault != nil {
+		return fmt.Sprintf("flife %d %d %s %s", l.H, l.Base, l.Fault, insLine(l.Ins))
+	}
 	return fmt.Sprintf("life %d %d %d %s", l.H, l.Base, l.CrashAt, insLine(l.Ins))
 }
